@@ -204,6 +204,8 @@ struct Slot {
     uint32_t tb_rate = 0;
     uint64_t tb_burst = 0;
     bool registered() const { return st != ST_NONE && st != ST_ZOMBIE; }
+    bool dereg_asked = false;   // model: something asked for this module's deregistration (m_mod_deregister on it, a replacing registration, m_ctx_deregister);
+                                // a module that turns ZOMBIE without that still counts as a member of its context
     m_mod_t *raw = nullptr;    // the module's address (valid to use only while the harness holds some reference)
     m_mod_t *handle() const { return h ? h : keep ? keep : (user_refs > 0 ? raw : nullptr); }
 };
@@ -312,6 +314,7 @@ Frame *cur_api_frame();
 bool frame_on_stack(const char *name, int slot);
 bool frame_on_stack_any(const char *name);
 bool leaving(int slot);
+bool ctx_member(const Slot &s);   // registered in the current context as far as the program's own calls go
 int evt_prio(Slot &s, const EvtObs &e);
 bool cb_on_stack(int cb, int slot);
 bool ctx_is_looping_probe(bool *known);
